@@ -44,7 +44,12 @@ var c01Whens = []string{
 	// a variable at one key and a further constraint behind it: the index walk has to
 	// continue from the variable branch whatever the event holds under that key
 	`{"a":"?v","b":"y"}`,
+	// a `when` the rule parser accepts and the pattern index refuses (an array it cannot
+	// sort): AddRule may fail, and a failed replacement must leave the old rule dispatched
+	`{"a":[1,"x"]}`,
 }
+
+const c01RefusedWhen = 16
 
 var c01Events = []string{
 	`{"a":"x"}`,
@@ -427,6 +432,10 @@ func (in *c01inst) Apply(opi int) *lib.Violation {
 	case "addrule":
 		when := lib.JM(c01Whens[op.Idx])
 		id, err := in.home(op.Id).AddRule(in.ctx, op.Id, core.Map(c01Rule(when)))
+		if err != nil && op.Idx == c01RefusedWhen {
+			// refused: nothing was added, whatever the id held before is still there
+			return nil
+		}
 		if err != nil || id != op.Id {
 			return fviol("C01/"+in.kind+"/addrule-failed", fmt.Sprintf("%s: id=%q err=%v", op, id, err), "ok", fmt.Sprint(err))
 		}
@@ -489,7 +498,7 @@ func c01Scenarios(w *lib.Worker) []*lib.Scenario {
 	// to handle) explored deepest, and the one with empty containers in `when`
 	// (a recorded defect of the indexed state) explored separately so that the
 	// recorded defect does not hide histories behind it.
-	clean := []int{0, 1, 2, 3, 4, 5, 6, 7, 8, 9, 10, 11}
+	clean := []int{0, 1, 2, 3, 4, 5, 6, 7, 8, 9, 10, 11, c01RefusedWhen}
 	all := []int{0, 1, 2, 3, 4, 5, 6, 7, 8, 9, 10, 11, 12, 13, 14}
 	depth := 3
 	if w.Tier == "thorough" {
